@@ -116,7 +116,48 @@ func (q *queryStmtParser) validation() error {
 	if !q.allFields && len(q.selectItems) == 0 {
 		return fmt.Errorf("select fields cannbe be empty")
 	}
+	for _, item := range q.selectItems {
+		if !isCompleteExpr(item) {
+			return fmt.Errorf("select field expression is incomplete")
+		}
+	}
+	for _, item := range q.orderBy {
+		if !isCompleteExpr(item) {
+			return fmt.Errorf("order by expression is incomplete")
+		}
+	}
+	if q.havingStmt != nil && !isCompleteExpr(q.havingStmt) {
+		return fmt.Errorf("having expression is incomplete")
+	}
 	return nil
+}
+
+// isCompleteExpr checks that no operand of the expression tree is missing,
+// e.g. `f + *` or `f + 10s` leave the right side of the binary expression nil.
+func isCompleteExpr(expr stmt.Expr) bool {
+	switch e := expr.(type) {
+	case nil:
+		return false
+	case *stmt.SelectItem:
+		return isCompleteExpr(e.Expr)
+	case *stmt.OrderByExpr:
+		return isCompleteExpr(e.Expr)
+	case *stmt.ParenExpr:
+		return isCompleteExpr(e.Expr)
+	case *stmt.NotExpr:
+		return isCompleteExpr(e.Expr)
+	case *stmt.BinaryExpr:
+		return isCompleteExpr(e.Left) && isCompleteExpr(e.Right)
+	case *stmt.CallExpr:
+		for _, param := range e.Params {
+			if !isCompleteExpr(param) {
+				return false
+			}
+		}
+		return true
+	default:
+		return true
+	}
 }
 
 // resetExprStack resets expr stack for next parse fragment.
